@@ -7,7 +7,8 @@
 (* so a verdict is always local to one callback and total:                           *)
 (*   property layer  (C07): content  - what is written + queued at some destination  *)
 (*                                     is not what FIFO/exactly-once/hard-limit give  *)
-(*                          drops, fake, batch, stopflush                            *)
+(*                          drops, fake, batch, stopflush, undelivered (queued     *)
+(*                          data of a connected unpaused destination, no send timer) *)
 (*                   (C09): stuck    - quiescent, a destination up, every queue below *)
 (*                                     its low watermark, receivers still paused      *)
 (*   implementation layer : drift:<field> for any other projected field              *)
@@ -61,6 +62,7 @@ PropFlags(post, p) ==
         THEN {"batch"} ELSE {})
 \cup (IF p.closedNonEmpty THEN {"stopflush"} ELSE {})
 \cup (IF StuckS(Overlay(post, p)) THEN {"stuck"} ELSE {})
+\cup (IF ~SendScheduledS(Overlay(post, p)) THEN {"undelivered"} ELSE {})
 
 DriftFlags(post, p) ==
      (IF p.q # post.q \/ p.wire # post.wire THEN {"drift:split"} ELSE {})
